@@ -9,7 +9,7 @@ TC=nightly
 LLVM=$(dirname $(rustup run $TC rustc --print target-libdir))/bin
 OUT=/verif/harness/target-cov
 rm -rf $OUT/prof; mkdir -p $OUT/prof
-(cd harness && CARGO_TARGET_DIR=$OUT RUSTFLAGS="-C instrument-coverage" CARGO_NET_OFFLINE=true rustup run $TC cargo build --offline 2>&1 | tail -2)
+(cd harness && LLVM_PROFILE_FILE=$OUT/prof/build-%p.profraw CARGO_TARGET_DIR=$OUT RUSTFLAGS="-C instrument-coverage" CARGO_NET_OFFLINE=true rustup run $TC cargo build --offline 2>&1 | tail -2)
 BIN=$OUT/debug/verif_harness
 [ -x $BIN ] || { echo "instrumented build failed"; exit 1; }
 python3 - "$N" "$BIN" "$OUT" <<'PY'
